@@ -239,6 +239,14 @@ def run_one(ctx, site, make, files, schedule, replaying=False):
     s = Sched(files, schedule)
     funcs, check = make(s)
     results, trace = s.run(funcs)
+    if s.hung and site.startswith('s3'):
+        # the sites that talk to a local HTTP endpoint: a run that stalls is run once more under the same schedule -- a
+        # deadlock of the code under test is a property of the schedule and stalls again, a hiccup of the loopback
+        # connection on a loaded machine does not
+        ctx.count('s3_stalled_run_repeated')
+        s = Sched(files, schedule)
+        funcs, check = make(s)
+        results, trace = s.run(funcs)
     trace = [(t, tuple(w)) for t, w in trace]
     problem = None
     for tid in range(len(funcs)):
@@ -1534,7 +1542,8 @@ def v4p_readers(d):
     def pack(*arrs):
         return [np.asarray(a).tolist() for a in arrs]
     return [lambda: pack(d.az, d.ra, d.temperature, d.timestamps),
-            lambda: pack(d.dec, d.parangle, d.pressure, d.wind_speed, d.mjd),
+            lambda: pack(d.sensor['m000_pos_actual_scan_azim'], d.dec, d.parangle, d.pressure, d.wind_speed, d.mjd,
+                         d.sensor['m001_pos_actual_scan_elev']),
             lambda: pack(d.el, d.lst, d.target_x, d.humidity, d.az)]
 
 
